@@ -1294,12 +1294,17 @@ func (e *Engine) Describe(prop string) core.Description {
 	case "C30":
 		d.Rule = base + "Biased to emulation (value prompts), regmod and memory-view 'address'. Oracle: an address argument in decimal / 0x / 0b / 0-octal form must select the row containing it or be reported absent with exactly that address echoed; any other argument must be answered with an error; a well-formed number typed at a w-byte prompt must appear in the emulator state as the integer modulo 2^(8w) (read from the live state at the next simulator re-entry); empty / underscore / malformed answers must be rejected and the same item prompted again. Non-trivial = at least one address or value judged; distinct = distinct event-log hashes."
 	case "C31":
-		d.Rule = base + "Biased to navigation. Oracle: cursor parsed from the frame before and after down/up/goto/entrypoint/find: error => unchanged; else +-N, N, the entry instruction's line (current order), the first line after the cursor, cyclically and excluding it, whose text matches the POSIX regex (single-token patterns without anchors). Non-trivial = at least one navigation command judged with a visible cursor; distinct = distinct event-log hashes."
+		d.Rule = base + "Biased to navigation. Oracle: cursor parsed from the frame before and after down/up/goto/entrypoint/find: error => unchanged; else +-N, N, the entry instruction's line (current order), the first line after the cursor, cyclically and excluding it, whose text matches the POSIX regex typed (the words of the line joined by single blanks; patterns with blanks or anchors are judged against the exact line text - indentation and column padding measured on the screen - when that reconstruction reproduces every displayed row, and left unjudged otherwise). Non-trivial = at least one navigation command judged with a visible cursor; distinct = distinct event-log hashes."
 	case "C32":
 		d.Rule = base + "Biased to emulation then 'memory memory'. Oracle: rows of every memory-view frame and of a direct whole-view render equal one row per 16-byte window overlapping the emulator memory's stored blocks, ascending, each stored byte's current value, '..' for absent bytes, exactly one ellipsis row between non-consecutive rows; 'address' selects the row of a stored byte or reports absence. Non-trivial = session that entered a memory view; distinct = distinct event-log hashes."
 	}
 	d.ComponentsReal = []string{"consoleui.UI.Run / parseCommand / processCommand", "disassemble, emulate, memview modes and commands", "linereader (input through the verif hook)", "view.Print with terminal.GetSize on a real pty", "lines.View, memoryView, regView, Composite", "emulator + state + memory", "ELF loader, RISC-V lifter, deps.NewCode"}
-	d.ComponentsStub = []string{"runIU wiring of cmd/mltwist/main.go replicated in the harness (about 25 lines)"}
+	d.ComponentsStub = []string{"runIU wiring of cmd/mltwist/main.go replicated in the harness (about 25 lines; `./check selftest-transcript` compares whole sessions byte for byte with the real binary on a pty)"}
+	if prop == "C30" {
+		d.Rule += " One run in six is the prompt lab instead of a session: a synthetic straight-line code (instruction i copies register s<i> to d<i> at 1..255 bytes) in the real emulation mode over an empty state; every step makes the real state provider prompt at that width; well-formed answers must be accepted and leave the typed integer modulo 2^(8w) in the state, empty / underscored / malformed ones must be refused."
+		d.ComponentsStub = append(d.ComponentsStub, "prompt lab: the code model is built from hand-made parser.Instruction values (no ELF, no lifter); emulation mode, emulator, state provider, line reader and state are real")
+	}
+	d.Rule += " One session in five is a walker (entry point, emulate, then step after step with pointer prompts answered into the image's data); programs include memory-heavy straight-line code, runs of identical instructions and a second data block behind a small hole."
 	d.Assumptions = []string{
 		"frames are parsed from the captured output with regular expressions written from the visible layout; fresh renderings come from deps.Code's public API and from the live memory object",
 		"stream end is injected only at non-value prompts (the pinned tool retries forever at a value prompt after EOF, an observation outside the given properties)",
